@@ -179,7 +179,7 @@ impl ValidCase {
 pub const LONG_NOTE: &str = "fixed list of long / large recordings (compact `expand` descriptions): 1 100, 2 048, 2 200, 2 100 (reordering starts at \
      sample 2 060), 4 096, 20 000, 36 000, 70 000 video samples; 27 000 + 42 188 A/V samples with ties; 70 000 audio samples; single samples of 1 MiB + 1, \
      1.25 MiB, 1.5 MiB + 17, 2 MB, 2.5 MiB, 3 MiB, 4 MiB - 3, 4 MiB, 4 MiB + 5, 8 MiB + 3, 16 MiB + 1 at first / middle / last position, video-only and A/V, both layouts; uniform warm-ups of 600 .. 1 500 frames followed by frames of every shape; recordings that cross \
-     2^33 / 2^39 / 2^50 ticks or carry Unix-epoch timestamps; thorough tier: 1 048 700 video samples with audio ties after sample 2^20";
+     2^33 / 2^39 / 2^50 ticks or carry Unix-epoch timestamps; tracks of very different lengths (3 + 400, 400 + 3, 1 + 1 000, 2 + 257, 600 + 1 samples); slideshows with 8 .. 100 audio packets per frame and 2 .. 7 packets stamped on the next frame's tick; a constant decoder delay; thorough tier: 1 048 700 video samples with audio ties after sample 2^20";
 
 fn long_cfg(codec: u8, audio: u8, fast_start: bool) -> CfgGene {
     CfgGene {
@@ -257,6 +257,11 @@ pub fn long_cases(huge: bool) -> Vec<ValidCase> {
         long_case(long_cfg(0, 1, false), 1_790_000_000u64 * 90_000, 0, 1, ex(30, 45)),
         long_case(long_cfg(2, 0, true), (1u64 << 50) - 6_000, 0, 0, ex(12, 0)),
     ];
+    // tracks of very different lengths: a handful of samples on one, hundreds on the other (chunk runs, interleave tails)
+    for (n, &(nv, na)) in [(3u32, 400u32), (400, 3), (1, 1000), (2, 257), (600, 1)].iter().enumerate() {
+        let audio = if n % 2 == 0 { 1 } else { 7 };
+        v.push(long_case(long_cfg((n % 4) as u8, audio, n % 2 == 0), 0, 0, (n % 3) as u8, Expand { key_every: 7, ..ex(nv, na) }));
+    }
     // a slideshow whose audio arrives in batches: `run` running packets per video frame and then `ties` packets stamped with
     // exactly the next frame's time (several ties at the end of a long audio run)
     for (n, &(run, ties)) in [(25u32, 3u32), (9, 2), (100, 5), (40, 4), (8, 2), (63, 7)].iter().enumerate() {
